@@ -278,6 +278,8 @@ namespace bloch::runtime {
         // A runtime error raised by a user destructor cannot leave the shared_ptr deleter that
         // runs it; it is kept here and reported at the next statement boundary.
         std::exception_ptr m_pendingDestructorError;
+        const char* m_stackBase = nullptr;  // where the run started on the native stack
+        size_t m_stackBudget = 0;
         int m_releaseDepth = 0;  // nested object releases in progress
         std::deque<Object*> m_deferredReleases;
         int m_destructorDepth = 0;  // user destructor bodies currently running (they nest)
@@ -370,6 +372,7 @@ namespace bloch::runtime {
         void markObject(const std::shared_ptr<Object>& obj);
         void destroyObject(Object* obj, bool runUserDestructor);
         void releaseObject(Object* obj);
+        void checkStackBudget(int line, int column);
         Value callMethod(RuntimeMethod* method, RuntimeClass* staticDispatchClass,
                          const std::shared_ptr<Object>& receiver, const std::vector<Value>& args);
         void runConstructorChain(RuntimeClass* cls, const std::shared_ptr<Object>& obj,
